@@ -74,15 +74,24 @@ func genC20(r *gen.Rand) *C20Case {
 	put("p.q.yaml", map[string]any{"top": 1}) // its parent p.yaml is the target of some faults
 	// a file argument that is a symbolic link to a layer (it inherits from its target's name)
 	w.Links = append(w.Links, procsim.Link{Path: c20Dir + "/lnk.yaml", Target: "a.b.yaml"}, procsim.Link{Path: c20Dir + "/d/up.json", Target: "../c.json"})
+	// links into another directory to layers with a relative $parent: the
+	// parent is looked up next to the name the layer was reached by
+	put("withp.yaml", map[string]any{"$parent": "pbase", "v": 1})
+	put("pbase.yaml", map[string]any{"where": "top"})
+	put("d/pbase.yaml", map[string]any{"where": "in-d"})
+	put("withq.yaml", map[string]any{"$parent": "qbase", "v": 2})
+	put("qbase.yaml", map[string]any{"where": "top-only"})
+	w.Links = append(w.Links, procsim.Link{Path: c20Dir + "/d/lp.yaml", Target: "../withp.yaml"}, procsim.Link{Path: c20Dir + "/d2/lq.yaml", Target: "../withq.yaml"},
+		procsim.Link{Path: c20Dir + "/dlink", Target: "d"})
 	raw("broken.yaml", "a: [1, 2\n")
 	raw("notes.txt", "a.yaml\n")
 	raw("x.ini", "[x]\n")
 	raw("plain", "words\n")
 	// argument vector
 	good := []string{"a.yaml", "a.b.yaml", "c.json", "d/e.yaml", "t.toml", "./a.b.yaml", "d/../c.json", "./d/e.yaml", "p.q.yaml", "p.q.json", "big.yaml", "big.json",
-		"d/c.json", "d2/e.yaml", "d2/e.json", "d/c.yaml", "d2/a.b.yaml", "x,y.yaml", "x,y.json", "sp ace.yaml", "uni-é.json", "uni-é.yaml", "eq=ual.yaml", "semi;colon.json", "-dash.yaml", "lnk.yaml", "lnk.json", "d/up.json", "d/up.yaml"}
+		"d/c.json", "d2/e.yaml", "d2/e.json", "d/c.yaml", "d2/a.b.yaml", "x,y.yaml", "x,y.json", "sp ace.yaml", "uni-é.json", "uni-é.yaml", "eq=ual.yaml", "semi;colon.json", "-dash.yaml", "lnk.yaml", "lnk.json", "d/up.json", "d/up.yaml", "d/lp.yaml", "d/lp.json", "withp.yaml", "dlink/e.yaml", "dlink/lp.yaml"}
 	virtual := []string{"a.b.json", "c.yaml", "a.toml", "d/e.json", "c.yml", "a.b.jsonl"}
-	failing := []string{"bad.yaml", "bad2.json", "broken.yaml", "bad.json", "bad3.yaml", "bad3.json"}
+	failing := []string{"bad.yaml", "bad2.json", "broken.yaml", "bad.json", "bad3.yaml", "bad3.json", "d2/lq.yaml"}
 	pass := []string{"apply", "get", "-f", "-v", "--dry-run", "--opt=value", "--file=a.b.yaml", "-o=c.json", "notes.txt", "x.ini", "plain",
 		"nosuch.yaml", "nosuch", "a.b", "a.yaml.bak", "", "--", "-", "a.b.yaml ", "d", "d/", "zz/a.yaml", "a.xml", "--filename=d/e.yaml", "-f=a.yaml",
 		"notes.json", "plain.yaml", "x.toml", "./notes.txt", "d/../notes.txt", "a=b", "--set", "k=v.yaml", "e.yaml", "-o", "yaml", ".yaml", "a..yaml",
